@@ -16,7 +16,7 @@ Record opa_case := mkOC {
   oc_Eraw : list (list F);    (* p x q raw EOFs of the same SVD *)
   oc_S : list (list F);       (* n x q: data["input_data"] of the implementation (normalised PCs) *)
   oc_U0 : list (list F); oc_s0 : list F;   (* oracle: C0 = U0 diag(s0) U0^T *)
-  oc_Ci : list (list F);      (* oracle: inverse of C0_sqrt *)
+  oc_Ci : list (list F);      (* U0 diag(1/sqrt(s0)) U0^T as computed outside the model (cross-check) *)
   oc_Crefs : list (list (list F));  (* numpy: C_tau, tau = 0 .. tau_max *)
   oc_Mref : list (list F);    (* numpy: lag sum *)
   oc_Tref : list (list F);    (* numpy: target, independent route (eigh-based C0^(-1/2)) *)
@@ -33,7 +33,7 @@ Fixpoint desc_key (tol : float) (l : list F) : bool :=
 
 (* failing field numbers:
    1 shapes, 2 scaled PCs vs input_data, 3 C_tau vs numpy, 4 lag sum vs numpy, 5 factor oracle of C0,
-   6 inverse oracle of C0_sqrt, 7 Ci symmetric, 8 Ci^T C0 Ci = I, 9 target vs numpy, 10 target symmetric,
+   6 C0_sqrt_inv as recorded vs the model's symmetric inverse square root, 7 Ci symmetric, 8 Ci^T C0 Ci = I, 9 target vs numpy, 10 target symmetric,
    11 target U = U diag(lam), 12 U orthogonal, 13 order of the oracle answer, 14 reported decorrelation times,
    15 series, 16 filter patterns, 17 patterns, 18 norms, 19 model own time vs signed eigenvalue,
    20 model own time vs numpy own time of the implementation's series,
@@ -44,8 +44,7 @@ Definition check_opa (svd : bool) (rt : float) (c : opa_case) : list nat :=
   let E := scaled_eofs K n p q (oc_Eraw c) in
   let C0 := ctau K n q S 0 in
   let M := msum K n q S tm in
-  let A := c0sqrt K q (oc_U0 c) (oc_s0 c) in
-  let Ci := oc_Ci c in
+  let Ci := ci_sym K q (oc_U0 c) (oc_s0 c) in
   let T := target K q Ci (msym K q M) in
   let U := oc_U c in let lam := oc_lam c in
   let o := opa_fit K svd n p q k S E Ci U lam in
@@ -61,7 +60,7 @@ Definition check_opa (svd : bool) (rt : float) (c : opa_case) : list nat :=
   (if msame mag cl (rt * 10)%float M (oc_Mref c) then [] else [4%nat]) ++
   (if mcl cl tolI tolI (mmul K q q q (mT K q q (oc_U0 c)) (oc_U0 c)) (mI K q) &&
       msame mag cl (rt * 10)%float (mmul K q q q (colscale K q q (oc_U0 c) (oc_s0 c)) (mT K q q (oc_U0 c))) C0 then [] else [5%nat]) ++
-  (if mcl cl tolI tolI (mmul K q q q Ci A) (mI K q) && mcl cl tolI tolI (mmul K q q q A Ci) (mI K q) then [] else [6%nat]) ++
+  (if msame mag cl (rt * 100)%float Ci (oc_Ci c) then [] else [6%nat]) ++
   (if msame mag cl rt (mT K q q Ci) Ci then [] else [7%nat]) ++
   (if mcl cl tolI tolI (mmul K q q q (mmul K q q q (mT K q q Ci) C0) Ci) (mI K q) then [] else [8%nat]) ++
   (if msame mag cl (rt * 100)%float T (oc_Tref c) then [] else [9%nat]) ++
